@@ -84,17 +84,17 @@ Definition e2e_obs := (addr * list (N * addr * N * N) * bool)%type.
 Definition out_proj (o : out) : N * addr * N * N :=
   ((match o_type o with TChallenge => 0 | TResponse => 1 end), o_dest o, o_size o, o_cookie o).
 
-(* the step function IS C15Newest.estep (repaired verdict): admission by epoch, replay window and
+(* the step function IS C15Newest.estep (verdict of the code now, RSeen): admission by epoch, replay window and
    connection ID, the newest-record verdict, then the connection-level step *)
 Definition e2e_step_fn (local : bytes) (wsize : N) (st : estate) (s : e2e_step)
   : estate * list (N * addr * N * N) * bool :=
   match s with
-  | STick now => (fst (fst (estep true local st (EConn (EPurge now)))), [], false)
+  | STick now => (fst (fst (estep RSeen local st (EConn (EPurge now)))), [], false)
   | SDeliver from ep seq rc nb k cookie now repoch =>
       let r := mkRecv from (match rc with Some _ => true | None => false end) false nb k
                       cookie wsize WOk now in
-      let '(st1, outs, acc) := estep true local st (EArrive (mkArr ep seq rc r)) in
-      let st2 := fst (fst (estep true local st1 (EEpoch repoch))) in
+      let '(st1, outs, acc) := estep RSeen local st (EArrive (mkArr ep seq rc r)) in
+      let st2 := fst (fst (estep RSeen local st1 (EEpoch repoch))) in
       (st2, map out_proj (filter o_sent outs),
        match acc, k with Some _, KApp => true | _, _ => false end)
   end.
@@ -125,7 +125,7 @@ Fixpoint npre (st : nstate) (pre : list (N * N)) : nstate :=
   match pre with
   | [] => st
   | (ep, seq) :: pre' =>
-      npre (if nadmit st ep seq then fst (naccept true st ep seq) else st) pre'
+      npre (if nadmit st ep seq then fst (naccept RSeen st ep seq) else st) pre'
   end.
 
 (* case: RRC negotiated, local connection ID of the endpoint under test, wire size of its RRC
